@@ -15,9 +15,7 @@ defined here independently of the accumulating loop of the model.
 * `exunits_encoding_irrelevant` — Conway list and map forms with the same budgets get the same verdict.
 * `exunits_boundary_*` — budget exactly met is accepted, one unit more is rejected (no panic below 2^64).
 
-The `u64` overflow of the accumulators is a `panic` verdict of the model (dev profile), i.e. not `ok`;
-in a release build the same addition wraps — that is the arithmetic totality question of C33 and is
-listed as an assumption of this property's evidence.
+A sum that leaves `u64` is the `exceeded` verdict (`checked_add`, C33 `fix:`), in every build profile.
 -/
 namespace PallasVerif.Props.C37
 open PallasVerif.ExUnits
@@ -140,7 +138,7 @@ example : checkTxExUnits .alonzo ⟨some 1, none, none, some (.list two)⟩ 1000
 example : checkTxExUnits .alonzo ⟨some 1, none, none, none⟩ 1000 1000 = .redeemerMissing := by decide
 example : checkTxExUnits .alonzo ⟨some 0, none, none, some (.list two)⟩ 1 1 = .ok := by decide
 example : checkTxExUnits .conway ⟨none, none, some 1,
-    some (.list [(⟨0, 0⟩, ⟨U64_MAX, 1⟩), (⟨0, 1⟩, ⟨1, 1⟩)])⟩ U64_MAX U64_MAX = .panic := by decide
+    some (.list [(⟨0, 0⟩, ⟨U64_MAX, 1⟩), (⟨0, 1⟩, ⟨1, 1⟩)])⟩ U64_MAX U64_MAX = .exceeded := by decide
 example : presence .alonzo ⟨some 1, none, none, none⟩ = true := by decide
 
 end PallasVerif.Props.C37
